@@ -1,6 +1,7 @@
 ------------------------------ MODULE StdlibSig ------------------------------
 (***************************************************************************)
-(* The signature table of the text, math, base64, hex and times modules as *)
+(* The signature table of the text, math, base64, hex and times modules (and *)
+(* of the Regexp object text.re_compile returns: module "regexp") as          *)
 (* documented (docs/stdlib-*.md): parameter kinds, arity range, result     *)
 (* kind, whether a Go error is surfaced as an error value - and the        *)
 (* documented argument coercion rules as an acceptance matrix              *)
@@ -172,7 +173,11 @@ Sigs == <<
   <<"times", "since", <<"T">>, 1, 1, "I", FALSE>>,
   <<"times", "until", <<"T">>, 1, 1, "I", FALSE>>,
   <<"times", "now", <<>>, 0, 0, "T", FALSE>>,
-  <<"times", "in_location", <<"T", "S">>, 2, 2, "T", TRUE>> >>
+  <<"times", "in_location", <<"T", "S">>, 2, 2, "T", TRUE>>,
+  <<"regexp", "match", <<"S">>, 1, 1, "B", FALSE>>,
+  <<"regexp", "find", <<"S", "I">>, 1, 2, "X", FALSE>>,
+  <<"regexp", "replace", <<"S", "S">>, 2, 2, "S", FALSE>>,
+  <<"regexp", "split", <<"S", "I">>, 1, 2, "L", FALSE>> >>
 
 \* run-time types offered in each position
 RT == {"int", "float", "numstr", "text", "bool", "char", "bytes", "array", "strarray", "map", "undefined", "time", "error", "func"}
